@@ -41,6 +41,10 @@ impl Fe {
     #[verifier::external_body] pub fn from_bool(b: bool) -> (r: Fe) ensures r == fe_bool(b) { unimplemented!() }
     #[verifier::external_body] pub fn from_u8(v: u8) -> (r: Fe) ensures r == fe_u8(v) { unimplemented!() }
 }
+/// every sibling limb of the row is witness-fed or chained: the row needs no private data (depends on the row's input slots, which resolve_private_data does not look at)
+pub uninterp spec fn no_free_sibling_limb(e: &PoseidonPermExecutor) -> bool;
+/// the number of sibling limbs fill_sibling_data places for this row (capacity_ext for arity 2; the free chunks for arity 4)
+pub uninterp spec fn sibling_limbs_consumed(e: &PoseidonPermExecutor) -> int;
 /// an input limb is read from the witness bus (CTL enabled): it names a witness
 pub open spec fn sp_ctl(inp: Seq<WitnessId>) -> bool { inp.len() > 0 }
 /// the committed header of a compact D=1 row:  [in_ctl_i]_{i<rate} ++ [absorb_len, cap_chain_enable] ++ [normal_chain_i]_{i<rate} ++ [merkle_chain_i]_{i<rate}
@@ -70,6 +74,10 @@ def build():
     r.rewrite_re('R8', r'"[^"]*"\.to_string\(\)', 'errstr()', min_count=0)
     r.rewrite_re('R11', r'self\.op_type\.clone\(\)', 'self.op_type', min_count=0)
     r.ensures('sibling_data_on_a_row_that_cannot_consume_it_is_an_error', 'ctx.sibling() is Some && !self.merkle_path ==> ret is Err')
+    # C19 "missing / wrong-length / wrongly typed private data is an error" (open findings; side observations of the round-13 C19 mutation agent, reproduced)
+    r.ensures('private_data_of_another_type_is_an_error', 'ctx.private_data is Some && ctx.sibling() is None ==> ret is Err')
+    r.ensures('H_a_merkle_row_without_private_data_has_no_free_sibling_limb', '(self.merkle_path && ret == Ok::<Option<&[F]>, CircuitError>(None)) ==> no_free_sibling_limb(self)')
+    r.ensures('H_the_attached_sibling_has_the_length_the_row_consumes', 'ret matches Ok(Some(s)) ==> s@.len() == sibling_limbs_consumed(self)')
     r.ensures('ok_returns_exactly_the_attached_sibling', '(ret matches Ok(Some(s)) ==> self.merkle_path && ctx.sibling() == Some(s@)) && (ret matches Ok(None) ==> ctx.sibling() is None)')
     # ---------------------------------------------------------------- preprocess_inputs[compact D=1 header]: the committed selector columns of a compact row (C06)
     ph = u.extract(E, r'impl<V: PoseidonVariant> PoseidonPermExecutor<V>', 'preprocess_inputs', 'PoseidonPermExecutor::preprocess_inputs[compact_header]')
